@@ -68,6 +68,7 @@ def gen_enum(rng):
     const = False
     for b in range(nblocks):
         prior = []
+        sprior = []         # string members of this block: (name, value, is identifier)
         members_ts, members_js, members_model = [], [], []
         prev = None         # previous value: int / 'str' / 'computed-int'
         first = True
@@ -77,7 +78,7 @@ def gen_enum(rng):
                 continue                    # TypeScript rejects duplicate member names
             ident = nm.replace("$", "").replace("_", "").isalnum() and not nm[0].isdigit()
             ts_name = nm if ident else json.dumps(nm)
-            kinds = ["auto", "lit", "neg", "str", "const", "computed", "dup"]
+            kinds = ["auto", "lit", "neg", "str", "const", "computed", "dup", "strcat"]
             if not (first or isinstance(prev, int)):
                 kinds.remove("auto")
             kind = rng.choice(kinds)
@@ -98,6 +99,25 @@ def gen_enum(rng):
                 members_ts.append("%s = %s" % (ts_name, tsv))
                 members_model.append("%s=s:%s" % (nm, sv))
                 members_js.append('E[%s] = %s;' % (json.dumps(nm), json.dumps(sv)))
+                sprior = [p for p in sprior if p[0] != nm] + [(nm, sv, ident)]
+                v = "str"
+            elif kind == "strcat":
+                # a constant string concatenation (folded by tsc: a plain string member, NO reverse mapping): literals,
+                # a number literal, an earlier string member of this block
+                sp = [p for p in sprior if p[2]]
+                left = rng.choice(sp) if sp and rng.random() < 0.5 else None
+                lit1, lit2 = rng.choice(["a", "v", "/api", "M1", "B"]), rng.choice(["b", "", "/users", "x"])
+                if left:
+                    tsv, sv = "%s + %s" % (left[0], json.dumps(lit2)), left[1] + lit2
+                elif rng.random() < 0.3:
+                    num = rng.randint(0, 9)
+                    tsv, sv = "%s + %d" % (json.dumps(lit1), num), lit1 + str(num)
+                else:
+                    tsv, sv = "%s + %s" % (json.dumps(lit1), json.dumps(lit2)), lit1 + lit2
+                members_ts.append("%s = %s" % (ts_name, tsv))
+                members_model.append("%s=s:%s" % (nm, sv))
+                members_js.append('E[%s] = %s;' % (json.dumps(nm), json.dumps(sv)))
+                sprior = [p for p in sprior if p[0] != nm] + [(nm, sv, ident)]
                 v = "str"
             elif kind == "const":
                 t, j, v = const_expr(rng, [p for p in prior if p[2]])
